@@ -305,6 +305,10 @@ fn gen_semi_list(cst: &Cst<'_>, node_ref: NodeRef, items: &mut PrintItems) {
             match cst.get(child_node_ref) {
                 Node::Token(Token::Whitespace, _) => {}
                 Node::Token(Token::Semi, _) => gen_node(cst, child_node_ref, items),
+                Node::Token(Token::LineComment | Token::DocComment | Token::BlockComment, _) => {
+                    // a comment brings its own space or line break
+                    gen_node(cst, child_node_ref, items);
+                }
                 _ => {
                     if first {
                         items.push_space();
